@@ -462,7 +462,7 @@ def check(ctx):
     _r17_3(ctx)
     quick = ctx.tier != "thorough"
     requests = (REQUESTS[:3] if quick else REQUESTS) + EXTRA_REQUESTS
-    customs = [CUSTOMS[0], CUSTOMS[1], CUSTOMS[4]] if quick else CUSTOMS  # quick: wildcard by certificate name, catch-all, wildcard by explicit spec name
+    customs = [CUSTOMS[0], CUSTOMS[1], CUSTOMS[2], CUSTOMS[4]] if quick else CUSTOMS  # quick: wildcard by certificate name, catch-all, wildcard by explicit spec name
     fn = ctx.func(F, "CertStore.get_cert")
     ctx.func(F, "CertStore.add_cert")
     ctx.func(F, "CertStore.expire")
